@@ -7,6 +7,8 @@ import (
 	"time"
 
 	"github.com/miekg/dns"
+	internalcache "github.com/semihalev/sdns/internal/cache"
+	"github.com/semihalev/sdns/internal/wire"
 	"github.com/semihalev/sdns/middleware"
 )
 
@@ -134,3 +136,31 @@ func VerifC05PrefetchBusy(c *Cache, claims []*CacheEntry) bool {
 
 // VerifC05WireRecomposable exposes wireRecomposable (accessor only).
 func VerifC05WireRecomposable(rrtype uint16) bool { return wireRecomposable(rrtype) }
+
+// VerifC05Chase runs the cache-contained alias walk and the composition of
+// Cache.serveChaseHit for the wire-born request wreq, without a writer:
+// exact-entry lookup + preimage check (as Cache.serveWire), collectWireChase,
+// composeWireChase into a buffer of the size serveChaseHit leases. found =
+// the alias entry exists; ok = walk and composition succeeded.
+func VerifC05Chase(c *Cache, wreq *middleware.Request, do bool) (body []byte, info middleware.WireInfo, hops int, found, ok bool) {
+	key, kok := internalcache.KeyWire(wreq.WireName(), wreq.Qtype(), wreq.Qclass(), wreq.CD())
+	if !kok {
+		return nil, middleware.WireInfo{}, 0, false, false
+	}
+	alias := c.checkCache(key)
+	if alias == nil || !entryMatchesWire(alias, wreq) {
+		return nil, middleware.WireInfo{}, 0, false, false
+	}
+	var segs [maxWireChaseHops]wireChaseSegment
+	n, cok := c.collectWireChase(wreq, alias, do, segs[:])
+	if !cok {
+		return nil, middleware.WireInfo{}, 0, true, false
+	}
+	size := wire.HeaderLen + (wreq.WireQuestionEnd() - wire.HeaderLen)
+	for i := range n {
+		size += len(segs[i].body) + segs[i].anCount*wireChaseHeadroom
+	}
+	dst := make([]byte, 0, size)
+	b, inf, built := composeWireChase(dst, wreq, alias, segs[:n])
+	return b, inf, n, true, built
+}
